@@ -26,7 +26,7 @@ Qed.
 Lemma be_nat_acc b : forall a, fold_left (fun acc x => N.shiftl acc 8 + x) b a = be_acc a b.
 Proof.
   induction b as [|x r IH]; intros a; cbn [fold_left be_acc]; [reflexivity|].
-  rewrite IH, shiftl_8. reflexivity.
+  rewrite IH, shiftl_8. f_equal. lia.
 Qed.
 
 Lemma be_nat_value b : be_nat b = be_value b.
